@@ -19,7 +19,8 @@ RULE = ('random grammars (profile: many skipws/noskipws/ws= rule modifiers on se
         'and require the outcome the reference gives (normally rejection). distinct = (grammar skeleton, token kinds, '
         'boundary kind); non-trivial = boundary lies inside a rule with a modifier, a Comment grammar, or under eolterm')
 REQUIRED = {'inputs': 200, 'tokens_context_checked': 2000, 'insertions_active': 500, 'insertions_inactive': 100,
-            'comment_insertions': 30, 'modifier_boundaries': 100, 'skipped_spans_checked': 1000}
+            'comment_insertions': 30, 'modifier_boundaries': 100, 'skipped_spans_checked': 1000,
+            'inputs_with_suppressed_tokens_made_visible': 50}
 
 ML = None
 PS = None
@@ -47,6 +48,10 @@ def _one(ctx, i, rep=None):
     rep = rep or {'i': i}
     r = ctx.rng('g', i)
     gen_ = G(r, 0.0, pskip=0.35, pws=0.2, pcomment=0.5)
+    if i % 3 == 0:
+        # many suppressed references to match rules (which carry whitespace modifiers of their own)
+        gen_.psupref = 0.2
+        gen_.pskip, gen_.pws = 0.5, 0.3
     g = gen_.grammar()
     text = RP.pr_grammar(g)
     cfg = dict(skipws=r.random() < 0.85, auto_init_attributes=True, use_regexp_group=False)
@@ -59,6 +64,9 @@ def _one(ctx, i, rep=None):
         return
     skel = P.skeleton(g)
     comment_rule = g.rule('Comment')
+    # tokens matched by suppressed expressions are absent from the derivation: a copy of the grammar without the
+    # suppression operators yields them (same matching, every token visible)
+    g_all = RP.unsuppressed(g) if 'suppress' in P.grammar_features(g) else None
     base_ws = cfg.get('ws', '\t\n\r ')
     for s in P.make_inputs(g, r, cfg, 6 if ctx.tier == 'quick' else 10, mutate_every=0):
         ref, tree = P.ref_outcome(g, s, cfg)
@@ -77,6 +85,11 @@ def _one(ctx, i, rep=None):
             continue        # acceptance/model divergences are C01's business
         ctx.count('inputs')
         toks = RP.all_tokens(tree)
+        if g_all is not None:
+            ref_all, tree_all = P.ref_outcome(g_all, s, cfg)
+            if ref_all[0] == 'ok':
+                toks = RP.all_tokens(tree_all)
+                ctx.count('inputs_with_suppressed_tokens_made_visible')
         wit = {'grammar': text, 'input': s, 'config': cfg}
         # ---- (i) hook invariant -------------------------------------------
         bad = None
